@@ -320,13 +320,21 @@ let run_srv toks =
     let st = ref lstate_init in
     let mem = n_of_dec "1000000000000" in
     let out = ref [] in
+    let abandoned = ref [] in   (* (client, path, clean) of receivers whose peer fell silent right after the handshake *)
     let emit s = out := s :: !out in
     let reply_text acts =
       match List.filter_map (function AReply (l, p) -> Some (l, p) | _ -> None) acts with
       | (l, p) :: _ -> Some (hex_of_bytes (encode p) ^ "@" ^ (if l then "L" else "E"))
       | [] -> None in
     List.iter (fun step ->
-      if step = "-" || step.[0] = 'w' then () else begin
+      if step = "-" || step.[0] = 'w' then ()
+      else if step.[0] = 'x' then begin
+        (* the abandoned worker of this client has exhausted its retries: clean-on-error removes whatever the path names now *)
+        let c = Char.code step.[1] - 48 in
+        List.iter (fun (c', path, clean) -> if c' = c && clean then root := remove_file !root path) !abandoned;
+        abandoned := List.filter (fun (c', _, _) -> c' <> c) !abandoned;
+        st := worker_ended !st (n_of_int (c + 1))
+      end else begin
         let kind = step.[0] in
         let c = Char.code step.[1] - 48 in
         let fields = String.split_on_char ':' (String.sub step 3 (String.length step - 3)) in
@@ -394,7 +402,8 @@ let run_srv toks =
                     emit (match ph with RDone OutOk -> "ul=acked" | _ -> "ul=noack:?")
                   end else if first <> None && cont = "E" then begin
                     if clean then root := remove_file !root path
-                  end
+                  end else if first <> None && cont = "-" then
+                    abandoned := (c, path, clean) :: !abandoned
                 | None ->
                   if first <> None && String.length cont > 0 && cont.[0] = 'U' then begin
                     let content = spec_content (String.sub cont 1 (String.length cont - 1)) in
@@ -404,7 +413,7 @@ let run_srv toks =
                     if cfg.v_single then emit ("ul=error:" ^ hex_of_bytes (encode (Error (EIllegalOperation, msg_invalid_request))))
                     else emit (Printf.sprintf "ul=noack:%d" (min (int_of_n o.wo_ws) nb))
                   end);
-               st := worker_ended !st src
+               if not (List.exists (fun (c', _, _) -> c' = c) !abandoned) then st := worker_ended !st src
              | _ ->
                (* refused or dropped: the continuation clients do nothing, but report *)
                if first <> None then begin
@@ -432,7 +441,7 @@ let srv_steps (steps : string) (impl : string) : steprec list * string =
   let next () = match !toks with t :: r -> toks := r; t | [] -> "" in
   let peek () = match !toks with t :: _ -> t | [] -> "" in
   let recs = List.filter_map (fun step ->
-    if step = "-" || step.[0] = 'w' then None else begin
+    if step = "-" || step.[0] = 'w' || step.[0] = 'x' then None else begin
       let fields = String.split_on_char ':' (String.sub step 3 (String.length step - 3)) in
       let dg = match fields with f :: _ -> if f = "-" then [] else bytes_of_hex f | [] -> [] in
       let cont = match fields with _ :: x :: _ -> x | _ -> "-" in
@@ -640,6 +649,42 @@ let mon_srv prop case impl =
              | _ -> ()
            end
          | _ -> ()) recs
+     | "C13" ->
+       let clean = not (has_flag flags 'k') in
+       (* an accepted upload that the peer aborts with ERROR: removed (clean-on-error) or kept as a prefix (here: empty) *)
+       let relpath name = match kernel_segs (join rdir (convert_file_path name)) with
+         | _ :: rel -> String.concat "/" (List.map string_of_bytes rel) | [] -> "" in
+       let nrecs = List.length recs in
+       List.iteri (fun i r ->
+         match decoded r with
+         | Some (Wrq (name, _, _)) when r.scont = "E" && not (is_refusal (fst (reply_hex r.sreply))) && r.sreply <> "reply=none" ->
+           let rel = relpath name in
+           let later_same = List.exists (fun (j, r2) -> j > i && (match decoded r2 with Some (Wrq (n2, _, _)) -> relpath n2 = rel | _ -> false))
+               (List.mapi (fun j x -> (j, x)) recs) in
+           if not later_same && create_file init (join rdir (convert_file_path name)) [] <> None then begin
+             match List.assoc_opt rel final_entries with
+             | Some _ when clean -> bad "aborted-upload-not-removed"
+             | Some f when f <> "0:0000000000000000" -> bad "kept-partial-file-is-not-a-prefix"
+             | None when not clean -> bad "aborted-upload-removed-although-keep-on-error"
+             | _ -> ()
+           end
+         | _ -> ()) recs;
+       ignore nrecs;
+       (* the most recently accepted upload of a name completed: the file holds exactly its content from then on *)
+       let accepted_wrq = List.filter_map (fun (i, r) -> match decoded r with
+           | Some (Wrq (name, _, _)) when not (is_refusal (fst (reply_hex r.sreply))) && r.sreply <> "reply=none" -> Some (i, relpath name, r)
+           | _ -> None) (List.mapi (fun i x -> (i, x)) recs) in
+       List.iter (fun (i, rel, r) ->
+         if r.sxfer = "ul=acked" && not (List.exists (fun (j, rel2, _) -> j > i && rel2 = rel) accepted_wrq) then begin
+           let want = fp_text (spec_content (String.sub r.scont 1 (String.length r.scont - 1))) in
+           match List.assoc_opt rel final_entries with
+           | Some f when f = want -> ()
+           | _ ->
+             (* known finding D6: an upload of the same name accepted earlier was still in flight and failed later *)
+             if has_flag flags 'o' && List.exists (fun (j, rel2, r2) -> j < i && rel2 = rel && r2.sxfer <> "ul=acked" && r2.scont <> "E") accepted_wrq
+             then fail := "known:overlapping-uploads-same-path-overwrite-mode" :: !fail
+             else bad "completed-upload-removed-or-altered"
+         end) accepted_wrq
      | "C16" ->
        List.iter (fun r ->
          if starts_with r.sxfer "dl=" && ends_with r.sxfer "/done" then
@@ -649,7 +694,10 @@ let mon_srv prop case impl =
              if x <> "x0" then bad "handshake-packet-repeated"
            | _ -> ()) recs
      | _ -> ());
-    match !fail with [] -> (if List.mem prop ["C02"; "C03"; "C05"; "C06"; "C09"; "C14"; "C16"] then "pass" else "skip") | m :: _ -> "fail:" ^ m
+    match List.filter (fun m -> not (starts_with m "known:")) !fail, !fail with
+    | [], [] -> (if List.mem prop ["C02"; "C03"; "C05"; "C06"; "C09"; "C13"; "C14"; "C16"] then "pass" else "skip")
+    | [], k :: _ -> k
+    | m :: _, _ -> "fail:" ^ m
     end
   | _ -> "fail:unparsable"
 
